@@ -222,6 +222,7 @@ func replayEexec(args []string) error {
 	fs := flag.NewFlagSet("replay-eexec", flag.ContinueOnError)
 	basePath := fs.String("base", "", "base heap")
 	seed := fs.Int64("seed", 1, "seed")
+	fs.BoolVar(&compareCount, "count", false, "also compare Interpreter.NumOps with the reference (C11)")
 	if err := fs.Parse(args); err != nil {
 		return err
 	}
@@ -258,7 +259,11 @@ func replayEexec(args []string) error {
 			if d == nil {
 				sum.Agreed++
 			} else {
-				d.Sig = fmt.Sprintf("eexec form=%s ws=%s trailer=%s plaintext#%d %s", v.Form, v.Ws, v.Trailer, v.P, d.Sig[strings.LastIndex(d.Sig, "] ")+2:])
+				tag := "eexec"
+				if v.MaxOps > 0 {
+					tag = "eexec[budget]"
+				}
+				d.Sig = fmt.Sprintf("%s form=%s ws=%s trailer=%s plaintext#%d %s", tag, v.Form, v.Ws, v.Trailer, v.P, d.Sig[strings.LastIndex(d.Sig, "] ")+2:])
 				d.Stimulus = v.psVector.Label + ": " + fmt.Sprintf("%q", truncate(s, 600))
 				sum.NDisagree++
 				sum.BySig[d.Sig]++
